@@ -15,7 +15,8 @@ EXPLANATION = (
     "constants under a name map; C17.2 termination predicate normal forms (total order on comparisons); C17.3 reward as a function of "
     "(action, which state) with the reference's constants; C17.4 post-integration state limits (clamps lowered to clip, wall-stop "
     "predicate) and the MountainCar/ContinuousMountainCar sibling check; C17.5 initial-state range; C17.6 vector field (increments of the "
-    "reference's explicit-Euler update). MuJoCo (11 environments vs Gymnasium v5): C17.7 constructor defaults by parameter name; C17.8 "
+    "reference's explicit-Euler update); C17.17 the step integrates that field from (state.t, state.y) over one control interval under "
+    "the action taken with the configured solver / dt0 / controller, clips the solution at t+dt and advances the clock by dt. MuJoCo (11 environments vs Gymnasium v5): C17.7 constructor defaults by parameter name; C17.8 "
     "reset noise law of qpos/qvel; C17.9 kinematics typestate: an environment that reads a derived mjx.Data field at reset time or on the "
     "pre-state must run mjx.forward after the last qpos/qvel write in initial(); C17.10 observation composition (parts, slices, clip "
     "bounds) per flag combination; C17.11 reward terms against the reference's reward_info terms; C17.12 body-position field (xpos vs "
@@ -634,6 +635,9 @@ def check(s):
     check_info_siblings(s)
     check_stage_b(s)
     check_assets(s)
+    # C17.6 vector fields of the four classic-control environments (cheap: part of every run, not only of the thorough tier)
+    check_vector_fields(s)
+    check_integration(s)
     # C17.15 configuration wiring: a weight / range / flag given to the constructor is the one the like-named attribute holds
     from .util import ctor_wiring
     n15 = 0
@@ -1075,6 +1079,46 @@ def _run_block(gb, stmts, env, gdc, gfn, gci):
 
 
 def check_thorough(s):
+    """(the vector-field rules moved into the quick tier; nothing extra here)"""
+    return None
+
+
+def check_integration(s):
+    """C17.17: one environment step of a classic-control environment integrates the vector field `dynamics` (C17.6) from the state's own
+    time t over exactly one control interval dt, starting at the state's own y, under the action taken, with the configured solver and
+    step size, reads the solution at t + dt, applies the state limits (C17.4) to it, and advances the clock by dt."""
+    self_ = ("param", "self")
+    b = s.builder(inline=set())
+    nz = Normalizer(b)
+    con = "AbstractClassicControlEnv.transition"
+    loc = s.loc("AbstractClassicControlEnv", "transition")
+    bind = {"self": self_, "state": ("param", "state"), "action": ("param", "action"), "diffrax": ("global", "diffrax")}
+    REF = ("self.clip(diffrax.diffeqsolve(diffrax.ODETerm(lambda t, y, args: self.dynamics(t, y, action)), solver=self.solver, t0=state.t, t1=state.t + self.dt, "
+           "dt0=self.dt0, y0=state.y, {ARGS}saveat=diffrax.SaveAt(t1=True), stepsize_controller=self.stepsize_controller).ys[0])")
+    wants = [nz.canon(s.ref(b, REF.replace("{ARGS}", a_), bind)) for a_ in ("args=action, ", "")]
+    want_t = s.ref(b, "state.t + self.dt", bind)
+    n = 0
+    for p in live(s.paths(b, "AbstractClassicControlEnv", "transition")):
+        n += 1
+        r = p.ret
+        ok = isinstance(r, tuple) and r and r[0] == "update" and r[1] == ("param", "state")
+        f = {k_[0]: v for k_, v in r[2] if len(k_) == 1} if ok else {}
+        s.ob("C17.17", con, ok and set(f) == {"t", "y"}, "the step returns the incoming state with y and t replaced (nothing else touched)", loc, key="step-updates-y-and-t",
+             detail=show(r, maxlen=200), necessary_for="the same continuous-time dynamics and state limits as the reference")
+        if not (ok and set(f) == {"t", "y"}):
+            continue
+        got = nz.canon(f["y"])
+        s.ob("C17.17", con, got in wants,
+             "y' = clip(solution at t+dt of dy/dt = dynamics(t, y, action) from (state.t, state.y) with the configured solver, dt0 and step-size controller)", loc,
+             key="integration-step", detail=f"code:      {show_term(got, 700)}\nreference: {show_term(wants[0], 700)}",
+             necessary_for="each step advances the reference's vector field by exactly one control interval from the current state under the action taken")
+        s.eq("C17.17", con, nz, f["t"], want_t, "t' = t + dt", loc, key="clock-advance")
+    if n == 0:
+        raise AnalysisError(f"{con}: no path")
+    s.floor("C17.17", 3)
+
+
+def check_vector_fields(s):
     """C17.6: the continuous-time vector field equals the increment of the reference's explicit update."""
     P = s.prog
     self_ = ("param", "self")
